@@ -888,6 +888,25 @@ def with_state(build):
     return make
 
 
+class _NoState:
+    def __repr__(self):
+        return "NOSTATE"
+
+
+NOSTATE = _NoState()
+
+
+def with_state_then_plain(build):
+    """the uninterrupted run exposes its state (with_state=True); the resumed pipelines are given start=state
+    only and emit plain results: only results are compared there"""
+    def make(sdf, st, fresh):
+        L = build(sdf, st, fresh).stream.sink_to_list()
+        if fresh:
+            return lambda: [(e[0], e[1]) for e in L]
+        return lambda: [(NOSTATE, e) for e in L]
+    return make
+
+
 def state_is_result(build):
     """sum / count / groupby sum / count: the emitted value is the state"""
     def make(sdf, st, fresh):
@@ -977,7 +996,7 @@ def run_resume_case(spec, env, split):
                 if b.cresult != r.cresult:
                     return (Fail("resumed-result", k, {"cut_after_batch": cut - 1, "uninterrupted": short(b.result), "resumed": short(r.result)}, pos=tag),
                             runs, trans, states, nexc)
-                if b.cstate != r.cstate:
+                if r.state is not NOSTATE and b.cstate != r.cstate:
                     return (Fail("resumed-state", k, {"cut_after_batch": cut - 1, "uninterrupted": b.cstate[:160], "resumed": r.cstate[:160]}, pos=tag),
                             runs, trans, states, nexc)
     return None, runs, trans, states, nexc
